@@ -18,6 +18,7 @@ import (
 	"os/exec"
 	"path/filepath"
 	"regexp"
+	"sort"
 	"strings"
 	"sync"
 	"sync/atomic"
@@ -109,21 +110,36 @@ type ssSess struct {
 	fs         *cntFS
 	srv        *ssSrv
 	trk        *ssTrack
+	init       string // cfg.RO: the served tree before the first request
 }
 
 func ssOpen(cfg ssCfg, root string) (*ssSess, error) {
 	s := &ssSess{cfg: cfg, root: root, tree: filepath.Join(root, "t"), trk: newSSTrack(cfg)}
 	if cfg.Kind == "os" {
-		if err := ssMkTree(s.tree, cfg.Tree); err != nil {
+		if err := ssMkTree(s.tree, cfg.Tree, cfg.Start); err != nil {
 			return nil, err
 		}
+		if cfg.RO {
+			s.init = s.state()
+		}
 	} else {
-		s.fs = newCntFS(cfg.Tree)
+		s.fs = newCntFS(cfg.Tree, cfg.Start)
 		s.fs.closeErrPct, s.fs.closeErrSeed = cfg.CloseErr, cfg.CloseErrSeed
 	}
 	var err error
 	s.srv, err = ssStart(cfg, s.tree, s.fs)
 	return s, err
+}
+
+// readOnlyCheck: a read-only server leaves the served tree exactly as it was, whatever it was sent.
+func (s *ssSess) readOnlyCheck(res *ssResult) {
+	if !s.cfg.RO || s.cfg.Kind != "os" {
+		return
+	}
+	if got := s.state(); got != s.init {
+		res.Findings = append(res.Findings, ssFinding{Key: "os/readonly-tree-changed", What: "the tree served by a ReadOnly() server differs from what it was before the session",
+			Expected: ssDiffText(s.init, got, "-"), Actual: ssDiffText(got, s.init, "+")})
+	}
 }
 
 // state is what the served files / the handlers look like now.
@@ -154,17 +170,23 @@ func (s *ssSess) finish(res *ssResult) (extra []wire.Pkt) {
 			res.Findings = append(res.Findings, ssFinding{Key: "os/fd-leak", What: "file descriptors into the served tree remain after Serve returned", Expected: "none", Actual: strings.Join(fds, " ")})
 		}
 	} else if !s.cfg.InMem {
+		variants := map[string]bool{}
 		for _, o := range s.fs.objStates() {
-			if o.Closed == 1 {
+			if v := fmt.Sprintf("object/%s/closer=%v/transfer-error=%v", o.Kind, o.HasClose, o.HasTE); !variants[v] {
+				variants[v] = true
+				res.Hist = append(res.Hist, v)
+			}
+			if o.Closed == o.wantClosed() {
 				continue
 			}
 			key := fmt.Sprintf("rs/object-closed-%d-times/%s", o.Closed, o.Kind)
 			if o.Kind == "statlister" && o.Closed == 0 {
 				key = "rs/stat-lister-not-closed"
 			}
-			res.Findings = append(res.Findings, ssFinding{Key: key, What: fmt.Sprintf("%s object #%d for %s was closed %d times by the time Serve returned", o.Kind, o.ID, o.Path, o.Closed), Expected: "closed == 1", Actual: fmt.Sprintf("%+v", o)})
+			res.Findings = append(res.Findings, ssFinding{Key: key, What: fmt.Sprintf("%s object #%d for %s (io.Closer: %v) was closed %d times by the time Serve returned", o.Kind, o.ID, o.Path, o.HasClose, o.Closed), Expected: fmt.Sprintf("closed == %d", o.wantClosed()), Actual: fmt.Sprintf("%+v", o)})
 		}
 	}
+	s.readOnlyCheck(res)
 	if g := ssWaitQuiet(ssDlQuiet()); len(g) > 0 {
 		res.Findings = append(res.Findings, ssFinding{Key: k + "/goroutine-leak", What: fmt.Sprintf("package goroutines still alive %v after Serve returned", ssDlQuiet()) + ssDlNote(), Expected: "none", Actual: ssTrim(strings.Join(g, "\n\n"), 4000)})
 		res.Exit, res.Slow = true, true
@@ -338,8 +360,18 @@ func ssRunC07(ref *ssRef, m ssMut, root string) ssResult {
 		s.srv.CloseInput()
 	default:
 		s.srv.Send(rest)
-		if !s.srv.Wait(ssDlStop()) { // the server must stop on its own after a malformed packet
-			res.Findings = append(res.Findings, ssFinding{Key: malKey("keeps-serving-after-malformed"), What: fmt.Sprintf("Serve did not return within %v after a malformed packet (stream still open)", ssDlStop()) + ssDlNote()})
+		// the server must stop on its own after a malformed packet.  A healthy server does so within
+		// milliseconds; when the short deadline expires the case waits on (stream still open) up to the
+		// hang deadline before it is judged, so that a starved machine is not mistaken for a server
+		// that keeps serving.
+		stopped := s.srv.Wait(ssDlStop())
+		if !stopped && !ssFast {
+			if stopped = s.srv.Wait(ssDlHang() - ssDlStop()); stopped {
+				res.Hist = append(res.Hist, "load/stopped-after-malformed-later-than-"+ssDlStop().String())
+			}
+		}
+		if !stopped {
+			res.Findings = append(res.Findings, ssFinding{Key: malKey("keeps-serving-after-malformed"), What: fmt.Sprintf("Serve did not return within %v after a malformed packet (stream still open)", ssDl(ssDlHang(), ssDlStop())) + ssDlNote()})
 			res.Slow = true
 		}
 		s.srv.CloseInput()
@@ -512,8 +544,8 @@ func ssRunC11(cfg ssCfg, prog []ssStep, end ssEnd, root string) ssResult {
 					add(ssFinding{Key: "rs/object-without-handle", What: fmt.Sprintf("handler object #%d (%s %s) exists but no HANDLE was issued for it", o.ID, o.Kind, o.Path)})
 				case live && (o.Closed != 0 || o.CtxDone):
 					add(ssFinding{Key: "rs/live-handle-object-dead", What: fmt.Sprintf("handle %q is open but its %s object is closed=%d ctx-cancelled=%v", h, o.Kind, o.Closed, o.CtxDone), Expected: "closed=0, context alive"})
-				case !live && o.Closed != 1:
-					add(ssFinding{Key: fmt.Sprintf("rs/close-did-not-close-once/%s", o.Kind), What: fmt.Sprintf("handle %q was closed but its %s object has closed=%d", h, o.Kind, o.Closed), Expected: "closed=1"})
+				case !live && o.Closed != o.wantClosed():
+					add(ssFinding{Key: fmt.Sprintf("rs/close-did-not-close-once/%s", o.Kind), What: fmt.Sprintf("handle %q was closed but its %s object (io.Closer: %v) has closed=%d", h, o.Kind, o.HasClose, o.Closed), Expected: fmt.Sprintf("closed=%d", o.wantClosed())})
 				case !live && !o.CtxDone:
 					add(ssFinding{Key: "rs/context-not-cancelled-on-close", What: fmt.Sprintf("handle %q was closed but the context given to its %s handler is still alive", h, o.Kind)})
 				case !live && o.TE != 0:
@@ -552,6 +584,25 @@ func ssRunC11(cfg ssCfg, prog []ssStep, end ssEnd, root string) ssResult {
 	}
 	res.Model = mrec.finish(end, extra)
 	res.Hist = append(res.Hist, fmt.Sprintf("live-at-end/%d", ssBucket(nlive)), fmt.Sprintf("issued/%d", ssBucket(len(s.trk.order))))
+	if k == "os" {
+		// every file the server opened (seen through the counting wrapper put around it when its HANDLE
+		// reply arrived) has been closed exactly once — by its CLOSE or by the end-of-Serve sweep
+		for idx, f := range mrec.files {
+			if f == nil {
+				continue
+			}
+			if n := int(f.closed.Load()); n != 1 {
+				h := ""
+				if idx < len(mrec.t.Issued) {
+					h = mrec.t.Issued[idx]
+				}
+				add(ssFinding{Key: fmt.Sprintf("os/file-closed-%d-times", min(n, 2)), What: fmt.Sprintf("the file behind handle %q (%s) was closed %d times by the time Serve returned", h, f.f.Name(), n), Expected: "closed == 1", Actual: fmt.Sprint(n)})
+			}
+		}
+		if cfg.Debug && s.srv.dbg != nil {
+			ssDebugCheck(s, end, closeSent, &res)
+		}
+	}
 	if k == "rs" && !cfg.InMem {
 		for _, o := range s.fs.objStates() {
 			if o.Kind == "statlister" {
@@ -561,11 +612,14 @@ func ssRunC11(cfg ssCfg, prog []ssStep, end ssEnd, root string) ssResult {
 			_, live := s.trk.live[h]
 			openAtEnd := !mapped || (live && !closeSent[h]) // an unmapped object belongs to the unanswered last OPEN
 			wantTE := 0
-			if openAtEnd && o.Kind != "lister" {
+			if openAtEnd && o.HasTE { // no lister variant has the method
 				wantTE = 1
 			}
+			if openAtEnd {
+				res.Hist = append(res.Hist, fmt.Sprintf("open-at-end/%s/closer=%v/transfer-error=%v", o.Kind, o.HasClose, o.HasTE))
+			}
 			if o.TE != wantTE {
-				add(ssFinding{Key: fmt.Sprintf("rs/transfer-error-count/%s", o.Kind), What: fmt.Sprintf("%s object #%d (handle %q, open at the end of the session: %v) received TransferError %d times", o.Kind, o.ID, h, openAtEnd, o.TE), Expected: fmt.Sprint(wantTE), Actual: fmt.Sprint(o.TE)})
+				add(ssFinding{Key: fmt.Sprintf("rs/transfer-error-count/%s", o.Kind), What: fmt.Sprintf("%s object #%d (handle %q, open at the end of the session: %v, has TransferError: %v) received TransferError %d times", o.Kind, o.ID, h, openAtEnd, o.HasTE, o.TE), Expected: fmt.Sprint(wantTE), Actual: fmt.Sprint(o.TE)})
 			}
 			if o.TEAfterClose {
 				add(ssFinding{Key: "rs/transfer-error-after-close", What: fmt.Sprintf("%s object #%d received TransferError after Close", o.Kind, o.ID)})
@@ -576,6 +630,46 @@ func ssRunC11(cfg ssCfg, prog []ssStep, end ssEnd, root string) ssResult {
 		}
 	}
 	return res
+}
+
+// ssDebugCheck: WithDebug(w) — the end-of-Serve sweep names every handle it finds still open, once;
+// a handle whose CLOSE was answered is not among them.  When every reply of the session was read the
+// harness knows the set of open handles exactly and the report must be that set.
+func ssDebugCheck(s *ssSess, end ssEnd, closeSent map[string]bool, res *ssResult) {
+	hs, unread := ssDbgLeftOpen(s.srv.dbg.lines())
+	res.Hist = append(res.Hist, fmt.Sprintf("debug/left-open-lines/%d", ssBucket(len(hs))))
+	if len(unread) > 0 {
+		res.Hist = append(res.Hist, "debug/other-lines")
+	}
+	add := func(key, what, exp, act string) {
+		res.Findings = append(res.Findings, ssFinding{Key: key, What: what, Expected: exp, Actual: act})
+	}
+	seen := map[string]bool{}
+	for _, h := range hs {
+		_, live := s.trk.live[h]
+		switch {
+		case seen[h]:
+			add("os/debug-left-open-twice", fmt.Sprintf("the end-of-Serve sweep reported handle %q twice", h), "once", strings.Join(hs, " "))
+		case s.trk.issued[h] && !live:
+			add("os/closed-handle-swept", fmt.Sprintf("handle %q was closed by an answered CLOSE, yet the end-of-Serve sweep found it in the table", h), "not reported", strings.Join(hs, " "))
+		case !s.trk.issued[h] && end.Mode != "noreply":
+			add("os/debug-unknown-handle", fmt.Sprintf("the end-of-Serve sweep reported handle %q, which no HANDLE reply ever carried", h), "only issued handles", strings.Join(hs, " "))
+		}
+		seen[h] = true
+	}
+	if end.Mode == "noreply" {
+		return // the last request was not answered before the end: the set of open handles is not known exactly
+	}
+	var missing []string
+	for h := range s.trk.live {
+		if !seen[h] && !closeSent[h] {
+			missing = append(missing, h)
+		}
+	}
+	if len(missing) > 0 {
+		sort.Strings(missing)
+		add("os/debug-left-open-missing", "handles that were open when the connection ended are not reported by the end-of-Serve sweep", strings.Join(missing, " "), strings.Join(hs, " "))
+	}
 }
 
 func ssBucket(n int) int {
@@ -912,9 +1006,10 @@ type ssInput struct {
 	Prog []ssStep `json:"prog"`
 	Mut  *ssMut   `json:"mut,omitempty"`
 	End  *ssEnd   `json:"end,omitempty"`
+	Cmp  *ssCfg   `json:"cmp,omitempty"` // c07 path-style comparison: the configuration whose reference run is compared with Cfg's
 }
 
-func (j *ssPJob) input() ssInput { return ssInput{j.Cfg, j.Prog, j.Mut, j.End} }
+func (j *ssPJob) input() ssInput { return ssInput{Cfg: j.Cfg, Prog: j.Prog, Mut: j.Mut, End: j.End} }
 
 // ssCollector turns job results into the lib.Result: findings, crashes (confirmed alone), timeouts.
 type ssCollector struct {
